@@ -148,6 +148,15 @@ func collection(v any) []any {
 	return nil
 }
 
+// isCollection returns true if v is a map or a slice, empty or not.
+func isCollection(v any) bool {
+	switch v.(type) {
+	case map[string]any, []any:
+		return true
+	}
+	return false
+}
+
 // executeAnyItem is the implementation of several jsonpath nodes:
 //
 //   - ast.AnyNode (.** accessor)
@@ -188,7 +197,7 @@ func (exec *Executor) executeAnyItem(
 	for _, v := range value {
 		col := collection(v)
 
-		if level >= first || (first == math.MaxUint32 && last == math.MaxUint32 && col == nil) {
+		if level >= first || (first == math.MaxUint32 && last == math.MaxUint32 && !isCollection(v)) {
 			// check expression
 			switch {
 			case node != nil:
